@@ -247,6 +247,75 @@ theorem rjust_colWidth (header : List Char) (cells : List (List Char)) (c : List
   · exact max_eq_left h1
   · exact max_eq_left (h2 c hc)
 
+/-- the widths the table uses: per key, the maximum of the header and every cell of that column -/
+def widthsOf : List Nat :=
+  (List.range keys.length).map (fun j => colWidth (keys.getD j "").toList (transposeCol (prettyCells fmt keys rows) j))
+
+/-- a line of the table, from the cell texts of one row -/
+def lineOf (vals : List (List Char)) : List Char :=
+  joinSep [' '] ((List.range keys.length).map (fun j => rjust ((widthsOf fmt keys rows).getD j 0) (vals.getD j [])))
+
+theorem toStringLines_eq :
+    toStringLines fmt keys rows
+      = lineOf fmt keys rows (keys.map String.toList) :: (prettyCells fmt keys rows).map (lineOf fmt keys rows) := rfl
+
+theorem map_getD_range (l : List Nat) : (List.range l.length).map (fun j => l.getD j 0) = l := by
+  apply List.ext_getElem
+  · simp
+  · intro i h1 h2
+    simp at h1 h2 ⊢
+    simp [h2]
+
+/-- the length of a line whose every cell fits its column: the sum of the widths plus the separators -/
+theorem lineOf_length (vals : List (List Char))
+    (hfit : ∀ j < keys.length, (vals.getD j []).length ≤ (widthsOf fmt keys rows).getD j 0) :
+    (lineOf fmt keys rows vals).length = (widthsOf fmt keys rows).sum + (keys.length - 1) := by
+  unfold lineOf
+  rw [joinSep_length]
+  simp only [List.length_map, List.length_range, List.length_singleton, Nat.mul_one, List.map_map]
+  congr 1
+  have : (List.range keys.length).map (List.length ∘ fun j =>
+      rjust ((widthsOf fmt keys rows).getD j 0) (vals.getD j []))
+      = (List.range keys.length).map (fun j => (widthsOf fmt keys rows).getD j 0) := by
+    apply List.map_congr_left
+    intro j hj
+    simp only [Function.comp, rjust_length]
+    exact max_eq_left (hfit j (List.mem_range.mp hj))
+  rw [this]
+  have hlen : (widthsOf fmt keys rows).length = keys.length := by simp [widthsOf]
+  conv_rhs => rw [← map_getD_range (widthsOf fmt keys rows), hlen]
+
+theorem widthsOf_getD (j : Nat) (hj : j < keys.length) :
+    (widthsOf fmt keys rows).getD j 0
+      = colWidth (keys.getD j "").toList (transposeCol (prettyCells fmt keys rows) j) := by
+  simp [widthsOf, List.getD_eq_getElem?_getD, hj]
+
+/-- **`to_string` is rectangular**: the header line and every row line have the same length (so the cells of a
+column end at the same position: a right-aligned table) -/
+theorem toStringLines_rectangular :
+    ∀ line ∈ toStringLines fmt keys rows,
+      line.length = (widthsOf fmt keys rows).sum + (keys.length - 1) := by
+  intro line hline
+  rw [toStringLines_eq] at hline
+  rcases List.mem_cons.mp hline with rfl | hmem
+  · apply lineOf_length
+    intro j hj
+    rw [widthsOf_getD fmt keys rows j hj]
+    have h := (le_foldl_max (transposeCol (prettyCells fmt keys rows) j) (keys.getD j "").toList.length).1
+    have e : (keys.map String.toList).getD j [] = (keys.getD j "").toList := by
+      simp [List.getD_eq_getElem?_getD, List.getElem?_map]
+      cases keys[j]? <;> simp
+    rw [e]
+    exact h
+  · obtain ⟨row, hrow, rfl⟩ := List.mem_map.mp hmem
+    apply lineOf_length
+    intro j hj
+    rw [widthsOf_getD fmt keys rows j hj]
+    have h := (le_foldl_max (transposeCol (prettyCells fmt keys rows) j) (keys.getD j "").toList.length).2
+    apply h
+    unfold transposeCol
+    exact List.mem_map.mpr ⟨row, hrow, rfl⟩
+
 end Views
 
 /-! ## html text -/
@@ -307,5 +376,185 @@ example : formatNum exactLib (.fin (-1 / 8)) { sig := 2 } = .ok "-0.12".toList :
 example : formatNum exactLib (.fin (1234567891 / 1000)) { sig := 9, tsep := ".", dpoint := "," }
     = .ok "1.234.567,89".toList := by decide +kernel
 example : escape "a<b & c>".toList = "a&lt;b &amp; c&gt;".toList := by decide
+
+end C16
+
+/-! ## no double rounding in exact arithmetic (the idealised float library) -/
+
+namespace C16
+open Format
+
+theorem rheInt_int (n : ℤ) : rheInt (n : ℚ) = n := by
+  apply rheInt_eq_of_close
+  simp
+
+/-- rounding half to even is symmetric -/
+theorem rheInt_neg (q : ℚ) : rheInt (-q) = -rheInt q := by
+  by_cases hint : (⌊q⌋ : ℚ) = q
+  · rw [← hint, ← Int.cast_neg, rheInt_int, rheInt_int]
+  · have h0 : (⌊q⌋ : ℚ) ≤ q := Int.floor_le q
+    have h1 : q < (⌊q⌋ : ℚ) + 1 := Int.lt_floor_add_one q
+    have hlt : (⌊q⌋ : ℚ) < q := lt_of_le_of_ne h0 hint
+    have hf : ⌊-q⌋ = -⌊q⌋ - 1 := by
+      rw [Int.floor_eq_iff]; push_cast; constructor <;> linarith
+    unfold rheInt
+    simp only [hf]
+    push_cast
+    by_cases a : q - (⌊q⌋ : ℚ) < 1 / 2
+    · have b : ¬ (-q - (-(⌊q⌋ : ℚ) - 1) < 1 / 2) := by linarith
+      have c : (1 : ℚ) / 2 < -q - (-(⌊q⌋ : ℚ) - 1) := by linarith
+      simp only [a, b, c, if_true, if_false]; ring
+    · by_cases a' : (1 : ℚ) / 2 < q - (⌊q⌋ : ℚ)
+      · have b : -q - (-(⌊q⌋ : ℚ) - 1) < 1 / 2 := by linarith
+        simp only [a, a', b, if_true, if_false]; ring
+      · have heq : q - (⌊q⌋ : ℚ) = 1 / 2 := le_antisymm (not_lt.mp a') (not_lt.mp a)
+        have b : ¬ (-q - (-(⌊q⌋ : ℚ) - 1) < 1 / 2) := by linarith
+        have c : ¬ ((1 : ℚ) / 2 < -q - (-(⌊q⌋ : ℚ) - 1)) := by linarith
+        simp only [a, a', b, c, if_false]
+        by_cases hev : ⌊q⌋ % 2 = 0
+        · have : ¬ ((-⌊q⌋ - 1) % 2 = 0) := by omega
+          simp only [hev, this, if_true, if_false]; ring
+        · have : (-⌊q⌋ - 1) % 2 = 0 := by omega
+          simp only [hev, this, if_true, if_false]; ring
+
+theorem rhe_neg (q : ℚ) (p : ℤ) : rhe (-q) p = -rhe q p := by
+  unfold rhe
+  rw [neg_mul, rheInt_neg]
+  push_cast
+  ring
+
+/-- rounding half to even is monotone -/
+theorem rheInt_mono {a b : ℚ} (h : a ≤ b) : rheInt a ≤ rheInt b := by
+  by_contra hlt
+  rw [not_le] at hlt
+  have ha := rheInt_error a
+  have hb := rheInt_error b
+  rw [abs_le] at ha hb
+  have h1 : (rheInt b : ℚ) + 1 ≤ rheInt a := by exact_mod_cast hlt
+  -- a ≥ rheInt a − 1/2 ≥ rheInt b + 1/2 ≥ b  ⇒ a = b = rheInt b + 1/2 = rheInt a − 1/2, so rheInt a = rheInt b
+  have hab : a = b := le_antisymm h (by linarith)
+  subst hab
+  exact absurd hlt (lt_irrefl _)
+
+theorem rhe_mono {a b : ℚ} (p : ℤ) (h : a ≤ b) : rhe a p ≤ rhe b p := by
+  unfold rhe
+  have hp := pow10_pos p
+  apply div_le_div_of_nonneg_right _ hp.le
+  exact_mod_cast rheInt_mono (mul_le_mul_of_nonneg_right h hp.le)
+
+theorem rhe_abs (q : ℚ) (p : ℤ) : |rhe q p| = rhe |q| p := by
+  have h0 : rhe 0 p = 0 := by
+    have := rheInt_int 0
+    simp only [Int.cast_zero] at this
+    simp [rhe, this]
+  by_cases hq : 0 ≤ q
+  · rw [abs_of_nonneg hq, abs_of_nonneg]
+    have := rhe_mono p hq
+    rwa [h0] at this
+  · rw [not_le] at hq
+    rw [abs_of_neg hq, rhe_neg, abs_of_nonpos]
+    · have := rhe_mono p hq.le
+      rw [h0] at this
+      have h2 : rhe (-q) p = -rhe q p := rhe_neg q p
+      linarith [this]
+
+end C16
+
+namespace C16
+open Format
+
+theorem rheInt_nonneg {q : ℚ} (h : 0 ≤ q) : 0 ≤ rheInt q := by
+  have := rheInt_mono h
+  have h0 := rheInt_int 0
+  simp only [Int.cast_zero] at h0
+  rwa [h0] at this
+
+/-- a power of ten that lies on the `p`-decimal grid is a fixed point of the rounding -/
+theorem rhe_pow10 (a p : ℤ) (h : 0 ≤ a + p) : rhe ((10 : ℚ) ^ a) p = (10 : ℚ) ^ a := by
+  have e : (10 : ℚ) ^ a = (((10 : ℤ) ^ (a + p).toNat : ℤ) : ℚ) / (10 : ℚ) ^ p := by
+    have hp := pow10_pos p
+    rw [eq_div_iff hp.ne', ← zpow_add₀ (by norm_num : (10 : ℚ) ≠ 0)]
+    push_cast
+    rw [← zpow_natCast, Int.toNat_of_nonneg h]
+  rw [e]
+  exact rhe_grid p _
+
+/-- **No double rounding (exact arithmetic).**  With an exact logarithm and no float error, the digits the
+second formatting pass prints — at the re-derived precision `p2`, which differs from `p` exactly when the first
+rounding carried to the next power of ten (`99.95 → 100`) — denote the once-rounded value. -/
+theorem ideal_fixed_value (v : ℚ) (hv : v ≠ 0) (s : ℤ) (hs : 1 ≤ s)
+    (hd : rhe v ((s - 1 - Int.log 10 |v|).toNat : ℤ) ≠ 0) :
+    let d := rhe v ((s - 1 - Int.log 10 |v|).toNat : ℤ)
+    let p2 := (s - 1 - Int.log 10 |d|).toNat
+    (((rheInt (|d| * (10 : ℚ) ^ (p2 : ℤ))).toNat : ℕ) : ℚ) / (10 : ℚ) ^ (p2 : ℤ) = |d| := by
+  intro d p2
+  set e := Int.log 10 |v| with he
+  set p := (s - 1 - e).toNat with hp
+  have habs : |d| = rhe |v| (p : ℤ) := rhe_abs v p
+  have hvpos : 0 < |v| := abs_pos.mpr hv
+  have hdpos : 0 < |d| := abs_pos.mpr hd
+  -- |d| is m / 10^p with m a natural number
+  set m := rheInt (|v| * (10 : ℚ) ^ (p : ℤ)) with hm
+  have hm0 : 0 ≤ m := rheInt_nonneg (mul_nonneg hvpos.le (pow10_pos _).le)
+  have hdm : |d| = (m : ℚ) / (10 : ℚ) ^ (p : ℤ) := by rw [habs]; rfl
+  -- it suffices to put |d| on the p2-grid
+  suffices hk : ∃ k : ℕ, |d| = (k : ℚ) / (10 : ℚ) ^ (p2 : ℤ) by
+    obtain ⟨k, hk⟩ := hk
+    have := fixed_digits_value d p2 k (by
+      rw [hk, sub_self, abs_zero]
+      have := pow10_pos (p2 : ℤ)
+      positivity)
+    rw [this, ← hk]
+  by_cases hpp : p ≤ p2
+  · refine ⟨m.toNat * 10 ^ (p2 - p), ?_⟩
+    rw [hdm]
+    have hp10 := pow10_pos (p : ℤ)
+    have hp20 := pow10_pos (p2 : ℤ)
+    rw [div_eq_div_iff hp10.ne' hp20.ne']
+    have hmn : ((m.toNat : ℕ) : ℚ) = (m : ℚ) := by
+      have : ((m.toNat : ℕ) : ℤ) = m := Int.toNat_of_nonneg hm0
+      exact_mod_cast this
+    push_cast
+    rw [hmn]
+    have : (10 : ℚ) ^ (p2 : ℤ) = (10 : ℚ) ^ (p2 - p) * (10 : ℚ) ^ (p : ℤ) := by
+      rw [zpow_natCast, zpow_natCast, ← pow_add]
+      congr 1
+      omega
+    rw [this]
+    ring
+  · -- the first rounding carried: |d| is exactly 10^(e+1)
+    rw [not_le] at hpp
+    have hp_pos : 0 < p := by omega
+    have hpe : (p : ℤ) = s - 1 - e := by
+      rw [hp]; exact Int.toNat_of_nonneg (by
+        by_contra hneg
+        rw [not_le] at hneg
+        have : (s - 1 - e).toNat = 0 := Int.toNat_eq_zero.mpr hneg.le
+        omega)
+    set e2 := Int.log 10 |d| with he2
+    have he2gt : e < e2 := by
+      by_contra hle
+      rw [not_lt] at hle
+      have : (s - 1 - e).toNat ≤ (s - 1 - e2).toNat := Int.toNat_le_toNat (by omega)
+      omega
+    have hlow : (10 : ℚ) ^ (e + 1) ≤ |d| := by
+      calc (10 : ℚ) ^ (e + 1) ≤ (10 : ℚ) ^ e2 := zpow_le_zpow_right₀ (by norm_num) (by omega)
+        _ ≤ |d| := Int.zpow_log_le_self (by norm_num) hdpos
+    have hup : |d| ≤ (10 : ℚ) ^ (e + 1) := by
+      rw [habs, ← rhe_pow10 (e + 1) p (by omega)]
+      apply rhe_mono
+      exact (Int.lt_zpow_succ_log_self (by norm_num) |v|).le
+    have hdeq : |d| = (10 : ℚ) ^ (e + 1) := le_antisymm hup hlow
+    have he2eq : e2 = e + 1 := by
+      rw [he2, hdeq]
+      exact Int.log_zpow (by norm_num) _
+    refine ⟨10 ^ (e + 1 + (p2 : ℤ)).toNat, ?_⟩
+    have hnn : 0 ≤ e + 1 + (p2 : ℤ) := by
+      have : s - 1 - e2 ≤ (p2 : ℤ) := Int.self_le_toNat _
+      omega
+    have hp20 := pow10_pos (p2 : ℤ)
+    rw [hdeq, eq_div_iff hp20.ne', ← zpow_add₀ (by norm_num : (10 : ℚ) ≠ 0)]
+    push_cast
+    rw [← zpow_natCast, Int.toNat_of_nonneg hnn]
 
 end C16
